@@ -5,7 +5,7 @@ func init() {
 		ID:    "C15",
 		Title: "Introspecting a service reproduces its schema",
 		Kernels: []Kernel{
-			{Name: "introspect", Pkg: "introspection", Files: []string{"introspection/c15.go"}, Entry: "VerifIntrospect", Mode: "seq",
+			{Name: "introspect", Pkg: "introspection", Files: []string{"introspection/c15.go"}, Entry: "VerifIntrospect", Mode: "seq", Native: true,
 				Quick: map[string]int{"shapes": 6}, Thorough: map[string]int{"shapes": 10},
 				Reach:     []string{"malformed answer rejected", "schema reconstructed"},
 				Known:     []string{"C15-argument-default-dropped", "C15-deprecation-dropped", "C15-input-default-quoted"},
